@@ -138,6 +138,9 @@ structure Repairs where
   zeroPathBadVarid : Bool := false
   /-- getput_vard derives new_numrecs from the filetype only when data was written (findings/patches/C05-vard-numrecs.diff) -/
   vardGuard : Bool := false
+  /-- the safe-mode blocks of ncmpio_fill_var_rec / ncmpio_set_fill / ncmpio_def_var_fill return the MPI_Allreduce(MIN) result on
+      every rank instead of letting a rank keep its own code (findings/patches/C08-F2d-safe-mode-common-code.diff) -/
+  safeMinCode : Bool := false
   /-- a rank whose ncmpi_fill_var_rec argument is in error still joins the collective fill -/
   fillVarRecErr : Bool := false
   /-- a rank whose metadata-call argument is in error still joins the (NC_HCOLL) collective header write -/
@@ -145,7 +148,8 @@ structure Repairs where
   deriving DecidableEq, Repr
 def Repairs.none : Repairs := {}
 def Repairs.all : Repairs :=
-  { zeroPathNumrecs := true, zeroPathBadVarid := true, vardGuard := true, fillVarRecErr := true, metaErrJoins := true }
+  { zeroPathNumrecs := true, zeroPathBadVarid := true, vardGuard := true, fillVarRecErr := true, metaErrJoins := true,
+    safeMinCode := true }
 
 /-- what is the same on every rank -/
 structure Cfg where
@@ -291,8 +295,9 @@ def fillOwnErr (x : RankInput) : Int :=
 def fillCmpErr (root me : RankInput) : Int :=
   if fillOwnErr me ≠ 0 then fillOwnErr me
   else if me.varid ≠ root.varid ∨ me.recno ≠ root.recno then -269 else 0
-def fillSafeErr (root : RankInput) (world : List RankInput) (me : RankInput) : Int :=
-  if fillCmpErr root me ≠ 0 then fillCmpErr root me else minOf (world.map (fillCmpErr root))
+/-- `mc` = the repaired block: every rank takes the minimum; before: `if (err == NC_NOERR) err = status` -/
+def fillSafeErr (mc : Bool) (root : RankInput) (world : List RankInput) (me : RankInput) : Int :=
+  if mc = false ∧ fillCmpErr root me ≠ 0 then fillCmpErr root me else minOf (world.map (fillCmpErr root))
 def fillBody (cfg : Cfg) (world : List RankInput) : Trace :=
   [.setView, .writeAll, .allreduce] ++
     hcollWrite cfg (decide (cfg.numrecs < maxOf cfg.numrecs (world.map (fun x => x.recno + 1))))
@@ -301,13 +306,13 @@ def fillTrace (rp : Repairs) (cfg : Cfg) (world : List RankInput) (me : RankInpu
   if cfg.safe then
     .allreduce ::
       (if minOf (world.map fillDispErr) ≠ 0 then []
-       else [.bcast, .bcast, .allreduce] ++ (if fillSafeErr root world me ≠ 0 then [] else fillBody cfg world))
+       else [.bcast, .bcast, .allreduce] ++ (if fillSafeErr rp.safeMinCode root world me ≠ 0 then [] else fillBody cfg world))
   else if fillOwnErr me ≠ 0 then (if rp.fillVarRecErr then fillBody cfg world else [])
   else fillBody cfg world
-def fillRet (cfg : Cfg) (world : List RankInput) (me : RankInput) : Int :=
+def fillRet (rp : Repairs) (cfg : Cfg) (world : List RankInput) (me : RankInput) : Int :=
   let root := world.headD me
   if cfg.safe then
-    (if minOf (world.map fillDispErr) ≠ 0 then minOf (world.map fillDispErr) else fillSafeErr root world me)
+    (if minOf (world.map fillDispErr) ≠ 0 then minOf (world.map fillDispErr) else fillSafeErr rp.safeMinCode root world me)
   else fillOwnErr me
 
 /-! ### mode switches and synchronisation -/
@@ -511,14 +516,14 @@ def metaTrace (rp : Repairs) (k : MetaKind) (cfg : Cfg) (world : List RankInput)
   else if metaCode me ≠ 0 then (if rp.metaErrJoins then metaBody k cfg root else [])
   else metaBody k cfg root
 
-def metaRet (k : MetaKind) (cfg : Cfg) (world : List RankInput) (me : RankInput) : Int :=
+def metaRet (rp : Repairs) (k : MetaKind) (cfg : Cfg) (world : List RankInput) (me : RankInput) : Int :=
   let root := (world.headD me).margs
   let steps := metaSteps k root
   if cfg.safe then
     (if metaDispAllreduce k && decide (minOf (world.map metaCode) ≠ 0) then minOf (world.map metaCode)
      else if metaDispCompares k && decide (minOf (world.map fun x => cmpErr steps root x.margs) ≠ 0) then
        minOf (world.map fun x => cmpErr steps root x.margs)
-     else if metaDriverOwn k root me.margs ≠ 0 then metaDriverOwn k root me.margs   -- `if (err == NC_NOERR) err = minE`
+     else if rp.safeMinCode = false ∧ metaDriverOwn k root me.margs ≠ 0 then metaDriverOwn k root me.margs   -- `if (err == NC_NOERR) err = minE`
      else minOf (world.map fun x => metaDriverOwn k root x.margs))
   else metaCode me
 
@@ -543,16 +548,16 @@ def localTrace (rp : Repairs) (api : Api) (cfg : Cfg) (world : List RankInput) (
   | .metaCall k => metaTrace rp k cfg world me
 
 /-- the code the call returns on rank `me` -/
-def localRet (api : Api) (cfg : Cfg) (world : List RankInput) (me : RankInput) : Int :=
+def localRet (rp : Repairs) (api : Api) (cfg : Cfg) (world : List RankInput) (me : RankInput) : Int :=
   match api with
   | .getput _ _ _ => getputRet cfg world me
   | .waitAll => waitRet me
-  | .fillVarRec => fillRet cfg world me
+  | .fillVarRec => fillRet rp cfg world me
   | .enddef _ a => enddefRet cfg a world me
   | .create => modeRet 273 cfg world me
   | .openFile _ => modeRet 251 cfg world me
   | .renameVar => renameRet cfg world me
-  | .metaCall k => metaRet k cfg world me
+  | .metaCall k => metaRet rp k cfg world me
   | _ => 0
 
 /-- the inputs on which a rank leaves the common sequence on the tree as it is (each disjunct is one defect) -/
